@@ -140,16 +140,31 @@ Proof.
   intros st e st' H. unfold paccept_ev in H.
   destruct (accept_ev (ps_t st) e) as [t'|] eqn:E; [|discriminate]. exists t'. split; [reflexivity|].
   destruct (root_of_ievent e) as [r|] eqn:R.
-  - destruct (segs_consistent (ps_segdocs st) r && root_event_ok (ps_epoch_n st) (ps_disk st) e r) eqn:C; [|discriminate].
-    apply andb_true_iff in C. destruct C as [C1 C2]. injection H as <-. simpl. repeat split; assumption.
+  - match type of H with (if ?c then _ else _) = _ => destruct c eqn:C; [|discriminate] end.
+    apply andb_true_iff in C. destruct C as [C C3]. apply andb_true_iff in C. destruct C as [C1 C2].
+    injection H as <-. simpl. repeat split; assumption.
   - injection H as <-. simpl. repeat split; reflexivity.
+Qed.
+
+Lemma pacc_PI_grab : forall st e st', paccept_ev table st (PI e) = Some st' ->
+  ps_grabbed st' = ps_grabbed st /\
+  forall r, root_of_ievent e = Some r ->
+    newly_persisted_ok (p_known (ps_pol st)) (t_root (ps_t st)) e r = true.
+Proof.
+  intros st e st' H. unfold paccept_ev in H.
+  destruct (accept_ev (ps_t st) e) as [t'|] eqn:E; [|discriminate].
+  destruct (root_of_ievent e) as [r|] eqn:R.
+  - match type of H with (if ?c then _ else _) = _ => destruct c eqn:C; [|discriminate] end.
+    apply andb_true_iff in C. destruct C as [C C3]. injection H as <-. split; [reflexivity|].
+    intros r0 Hr0. injection Hr0 as <-. exact C3.
+  - injection H as <-. split; [reflexivity | discriminate].
 Qed.
 
 Lemma pacc_safe : forall st k st', paccept_ev table st (PSafe k) = Some st' ->
   In k (t_keys (ps_t st)) /\ ~ In k (ps_safe st) /\ ~ In k (ps_acked st) /\
   st' = {| ps_t := ps_t st; ps_epoch_n := ps_epoch_n st; ps_segdocs := ps_segdocs st; ps_disk := ps_disk st;
            ps_pol := ps_pol st; ps_base := ps_base st; ps_safe := ps_safe st ++ [k]; ps_acked := ps_acked st;
-           ps_faulted := ps_faulted st |}.
+           ps_faulted := ps_faulted st; ps_grabbed := ps_grabbed st |}.
 Proof.
   intros st k st' H. unfold paccept_ev in H.
   match type of H with (if ?c then _ else _) = _ => destruct c eqn:C; [|discriminate] end.
@@ -161,11 +176,22 @@ Lemma pacc_grab : forall st e nacks st', paccept_ev table st (PGrab e nacks) = S
   e = sn_epoch (t_root (ps_t st)) /\ nacks = Z.of_nat (length (ps_safe st)) /\
   st' = {| ps_t := ps_t st; ps_epoch_n := ps_epoch_n st; ps_segdocs := ps_segdocs st; ps_disk := ps_disk st;
            ps_pol := ps_pol st; ps_base := ps_base st; ps_safe := []; ps_acked := ps_acked st;
-           ps_faulted := ps_faulted st |}.
+           ps_faulted := ps_faulted st; ps_grabbed := Some (e, persisted_ids (t_root (ps_t st))) |}.
 Proof.
   intros st e nacks st' H. unfold paccept_ev in H.
   match type of H with (if ?c then _ else _) = _ => destruct c eqn:C; [|discriminate] end.
-  injection H as <-. split_andb C. repeat split; lia.
+  injection H as <-. apply andb_true_iff in C. destruct C as [C _]. apply andb_true_iff in C. destruct C as [C _].
+  apply andb_true_iff in C. destruct C as [C1 C2]. repeat split; lia.
+Qed.
+
+(* the persister grabs once the root is loaded and while it is not writing a snapshot *)
+Lemma pacc_grab_when : forall st e nacks st', paccept_ev table st (PGrab e nacks) = Some st' ->
+  ps_epoch_n st <> [] /\ existsb if_snp (d_fly (ps_disk st)) = false.
+Proof.
+  intros st e nacks st' H. unfold paccept_ev in H.
+  match type of H with (if ?c then _ else _) = _ => destruct c eqn:C; [|discriminate] end.
+  apply andb_true_iff in C. destruct C as [C C4]. apply andb_true_iff in C. destruct C as [C C3].
+  split; [destruct (ps_epoch_n st); [discriminate | discriminate] | apply negb_true_iff; exact C4].
 Qed.
 
 Lemma pacc_start_snp : forall st epoch bytes segs st',
@@ -186,16 +212,37 @@ Proof.
   destruct (lookup epoch (ps_epoch_n st)) as [n|] eqn:L; [|discriminate].
   destruct (segs_content (ps_segdocs st) segs) as [content|] eqn:SC; [|discriminate].
   match type of H with (if ?c then _ else _) = _ => destruct c eqn:C; [|discriminate] end.
-  injection H as <-. exists n, content. split_andb C.
+  injection H as <-. exists n, content.
+  apply andb_true_iff in C. destruct C as [C C7]. apply andb_true_iff in C. destruct C as [C C6].
+  apply andb_true_iff in C. destruct C as [C C5]. apply andb_true_iff in C. destruct C as [C C4].
+  apply andb_true_iff in C. destruct C as [C C3]. apply andb_true_iff in C. destruct C as [C1 C2].
   destruct (loaded_ids table bytes) as [ids|] eqn:LI; [|discriminate].
-  apply list_eqbZ_eq in Cnd. subst ids.
-  apply negb_true_iff in Cnd0, Cnd2.
+  apply list_eqbZ_eq in C7. subst ids.
+  apply negb_true_iff in C3, C5.
   repeat split; try reflexivity; try assumption.
-  - intros s Hs. rewrite forallb_forall in C. apply in_map_iff in Hs. destruct Hs as [x [<- Hx]].
-    apply zmem_In. apply C. exact Hx.
+  - intros s Hs. rewrite forallb_forall in C1. apply in_map_iff in Hs. destruct Hs as [x [<- Hx]].
+    apply zmem_In. apply C1. exact Hx.
   - intro Hin. apply in_map_iff in Hin. destruct Hin as [x [Hx1 Hx2]].
-    pose proof (proj1 (existsb_false _ _) Cnd2 x Hx2) as Hf. simpl in Hf. lia.
+    pose proof (proj1 (existsb_false _ _) C3 x Hx2) as Hf. simpl in Hf. lia.
   - lia.
+Qed.
+
+(* the snapshot written is the grabbed one and keeps every file-backed segment of the grabbed root *)
+Lemma pacc_start_snp_grab : forall st epoch bytes segs st',
+  paccept_ev table st (PPersistStart true epoch bytes segs) = Some st' ->
+  exists G, ps_grabbed st = Some (epoch, G) /\ (forall s, In s G -> In s (map fst segs)) /\
+            ps_grabbed st' = ps_grabbed st.
+Proof.
+  intros st epoch bytes segs st' H. unfold paccept_ev in H.
+  destruct (lookup epoch (ps_epoch_n st)) as [n|] eqn:L; [|discriminate].
+  destruct (segs_content (ps_segdocs st) segs) as [content|] eqn:SC; [|discriminate].
+  match type of H with (if ?c then _ else _) = _ => destruct c eqn:C; [|discriminate] end.
+  injection H as <-.
+  apply andb_true_iff in C. destruct C as [C _]. apply andb_true_iff in C. destruct C as [_ C6].
+  destruct (ps_grabbed st) as [[ge G]|] eqn:Gr; [|discriminate].
+  apply andb_true_iff in C6. destruct C6 as [Ce CG]. assert (ge = epoch) by lia. subst ge.
+  exists G. split; [reflexivity|]. split; [|simpl; exact Gr].
+  intros s Hs. rewrite forallb_forall in CG. apply zmem_In. apply CG. exact Hs.
 Qed.
 
 Lemma pacc_start_seg : forall st id bytes segs st',
@@ -231,6 +278,13 @@ Proof.
   destruct (fly_find true epoch (d_fly d)) as [f|] eqn:F; [|discriminate].
   injection H as <-. exists f. apply fly_find_spec in F. destruct F as [F1 [F2 F3]].
   simpl. repeat split; assumption.
+Qed.
+
+Lemma pacc_ok_snp_grab : forall st epoch st', paccept_ev table st (PPersistOk true epoch) = Some st' ->
+  ps_grabbed st' = None.
+Proof.
+  intros st epoch st' H. unfold paccept_ev in H.
+  destruct (fly_find true epoch (d_fly (ps_disk st))); [|discriminate]. injection H as <-. reflexivity.
 Qed.
 
 Lemma pacc_ok_seg : forall st id st', paccept_ev table st (PPersistOk false id) = Some st' ->
@@ -285,7 +339,7 @@ Lemma pacc_ack_ok : forall st k st', paccept_ev table st (PAck k true) = Some st
   exists pos, pos_of k (t_keys (ps_t st)) = Some pos /\ covered st pos = true /\
   st' = {| ps_t := ps_t st; ps_epoch_n := ps_epoch_n st; ps_segdocs := ps_segdocs st; ps_disk := ps_disk st;
            ps_pol := ps_pol st; ps_base := ps_base st; ps_safe := ps_safe st; ps_acked := zadd k (ps_acked st);
-           ps_faulted := ps_faulted st |}.
+           ps_faulted := ps_faulted st; ps_grabbed := ps_grabbed st |}.
 Proof.
   intros st k st' H. unfold paccept_ev in H.
   destruct (pos_of k (t_keys (ps_t st))) as [pos|] eqn:P; [|discriminate].
